@@ -2,9 +2,13 @@ SPECIFICATION Spec
 CONSTANTS
   MaskUpdated = TRUE
   MaxOps = 6
+  MaxRep = 6
   MaxPool = 3
   Sizes = {1, 2}
   MaxParts = 4
+  Fams = {"wf", "dup", "twotok", "twover", "twosame", "tokzero", "overlap664", "range664", "diffn", "pno", "twomain"}
+  Take = TRUE
+  Linear = FALSE
   Export = FALSE
 VIEW View
-INVARIANTS MaskExact DuplicateFree CompleteExact LastStepLegal Commutes Idempotent NoBugWhenMaskUpdated
+INVARIANTS MaskExact DuplicateFree CompleteExact LastStepLegal Commutes Idempotent ForeignInert NoBugWhenMaskUpdated
